@@ -282,6 +282,99 @@ func TestVerifC19Wiring(t *testing.T) {
 		cancel()
 		time.Sleep(20 * time.Millisecond)
 	}
+	// listeners whose TLS block is enabled with verification on but cannot be built (CA file missing, a bundle without a CA
+	// certificate, an unloadable key pair): the configuration is refused, or the listener admits nobody - least of all a
+	// peer that speaks no TLS or presents no certificate
+	leafOnlyBundle := filepath.Join(dir, "w-leaf-only-bundle.pem")
+	if b, err := os.ReadFile(own.CertPath); err == nil {
+		_ = os.WriteFile(leafOnlyBundle, b, 0o600)
+	}
+	for _, broken := range []struct {
+		name string
+		tls  encryption.TLSConfig
+	}{
+		{"ca-file-missing", encryption.TLSConfig{CertificatePath: own.CertPath, KeyPath: own.KeyPath, RemoteCAPath: filepath.Join(dir, "no-such-ca.pem"), CAServerName: sn}},
+		{"bundle-without-a-ca-certificate", encryption.TLSConfig{CertificatePath: own.CertPath, KeyPath: own.KeyPath, RemoteCAPath: leafOnlyBundle, CAServerName: sn}},
+		{"key-pair-unloadable", encryption.TLSConfig{CertificatePath: own.CertPath, KeyPath: filepath.Join(dir, "no-such-key.pem"), RemoteCAPath: ca1.Path, CAServerName: sn}},
+	} {
+		for _, kind := range []string{"mux-server", "tcp"} {
+			cfg := config.ClusterConnConfig{Name: "c19b", Local: plainLocal}
+			if kind == "mux-server" {
+				cfg.Remote = config.ClusterDefinition{ConnectionType: config.ConnTypeMuxServer, MuxCount: 1,
+					MuxAddressInfo: config.TCPTLSInfo{ConnectionString: "127.0.0.1:0", TLSConfig: broken.tls}}
+			} else {
+				cfg.Remote = config.ClusterDefinition{ConnectionType: config.ConnTypeTCP,
+					TcpClient: config.TCPTLSInfo{ConnectionString: "127.0.0.1:1"}, TcpServer: config.TCPTLSInfo{ConnectionString: "127.0.0.1:0", TLSConfig: broken.tls}}
+			}
+			ctx, cancel := context.WithCancel(context.Background())
+			cc, err := NewClusterConnection(ctx, cfg, vfNoopLoggers())
+			evals++
+			nontrivial++
+			if err != nil {
+				cancel()
+				continue // refused at configuration time
+			}
+			cc.Start()
+			var addr string
+			if kind == "mux-server" {
+				addr = cc.inboundServer.(mux.MultiMuxManager).Address()
+			} else {
+				addr = cc.inboundServer.(*simpleGRPCServer).listener.Addr().String()
+			}
+			for _, peer := range []string{"plaintext", "tls-no-certificate", "tls-self-signed"} {
+				var perr error
+				switch {
+				case peer == "plaintext" && kind == "mux-server":
+					perr = vfMuxPlainPing(addr)
+				case peer == "plaintext":
+					perr = vfPlainHTTP2(addr)
+				default:
+					pool := x509.NewCertPool()
+					pool.AddCert(ca1.Cert)
+					pc := &tls.Config{RootCAs: pool, ServerName: sn, NextProtos: []string{"h2"}}
+					if peer == "tls-self-signed" {
+						leaf := selfSigned.TLSCert
+						pc.GetClientCertificate = func(*tls.CertificateRequestInfo) (*tls.Certificate, error) { return &leaf, nil }
+					}
+					if kind == "mux-server" {
+						pc.NextProtos = nil
+						perr = vfMuxPeerPing(addr, pc)
+					} else {
+						perr = vfTLSDial(addr, pc)
+					}
+				}
+				evals++
+				nontrivial++
+				if perr == nil {
+					res.Violate("tls-wiring/listener-with-unbuildable-tls-block-admits/"+broken.name+"/"+kind+"/"+peer, fmt.Sprintf("%s listener whose TLS block (verification on) cannot be built (%s) came up all the same, and a %s peer was served", kind, broken.name, peer), map[string]any{"kind": kind, "peer": peer, "broken": broken.name})
+				}
+			}
+			cancel()
+			time.Sleep(20 * time.Millisecond)
+		}
+	}
+	// the proxy as client towards its peer proxies (intra-proxy connections use the memberlist TLS block): while that
+	// block cannot be built no client connection may come into being - not on the first attempt and not on a later one
+	for _, broken := range []struct {
+		name string
+		tls  encryption.TLSConfig
+	}{
+		{"ca-file-missing", encryption.TLSConfig{RemoteCAPath: filepath.Join(dir, "no-such-ca.pem"), CAServerName: sn}},
+		{"key-pair-unloadable", encryption.TLSConfig{CertificatePath: own.CertPath, KeyPath: filepath.Join(dir, "no-such-key.pem"), RemoteCAPath: ca1.Path, CAServerName: sn}},
+	} {
+		mc := &config.MemberlistConfig{Enabled: true, NodeName: "n1", ProxyAddresses: map[string]string{"n1": "127.0.0.1:1", "n2": "127.0.0.1:2"}}
+		sm := NewShardManager(mc, config.ShardCountConfig{Mode: config.ShardCountRouting}, broken.tls, vfNoopLoggers()).(*shardManagerImpl)
+		mgr := sm.GetIntraProxyManager()
+		for attempt := 1; attempt <= 3; attempt++ {
+			ps, err := mgr.ensurePeer(context.Background(), "n2")
+			evals++
+			nontrivial++
+			if err == nil {
+				res.Violate("tls-wiring/intra-proxy-client-created-although-tls-block-unbuildable/"+broken.name, fmt.Sprintf("memberlist TLS block with verification on cannot be built (%s); attempt %d to connect to a peer proxy returned a client connection (%v) instead of the configuration error - it is dialled without TLS", broken.name, attempt, ps != nil), map[string]any{"broken": broken.name, "attempt": attempt})
+				break
+			}
+		}
+	}
 	// mux establisher (establisher.go): muxAddressInfo.tls with CA verification; the remote listener presents a
 	// valid / foreign / self-signed certificate; reached = the TLS handshake completes on the listener side and
 	// the proxy answers a yamux ping
@@ -344,7 +437,7 @@ func TestVerifC19Wiring(t *testing.T) {
 	}
 	res.Set("evaluations", evals)
 	res.Set("distinct_nontrivial", nontrivial)
-	res.Set("rule", "mux: listener built from muxAddressInfo.tls {verification on, skip} x peer {valid chain, self-signed, other CA, none, valid again} judged by a yamux ping over the TLS connection; establisher with muxAddressInfo.tls = CA verification against a TLS listener presenting {valid, other CA, self-signed}. real ClusterConnection (TCP): listeners with tcpServer.tls = verification on while tcpClient.tls = skip (and the reverse) x both servers x peer {valid chain, self-signed, other CA, none}: raw TLS + HTTP/2 preface exchange; outgoing client with tcpClient.tls = CA verification against a TLS fake cluster presenting {valid, other CA, self-signed}; non-trivial = must be refused")
+	res.Set("rule", "mux: listener built from muxAddressInfo.tls {verification on, skip} x peer {valid chain, self-signed, other CA, none, valid again} judged by a yamux ping over the TLS connection; establisher with muxAddressInfo.tls = CA verification against a TLS listener presenting {valid, other CA, self-signed}. real ClusterConnection (TCP): listeners with tcpServer.tls = verification on while tcpClient.tls = skip (and the reverse) x both servers x peer {valid chain, self-signed, other CA, none}: raw TLS + HTTP/2 preface exchange; outgoing client with tcpClient.tls = CA verification against a TLS fake cluster presenting {valid, other CA, self-signed}; listeners (TCP, mux) whose TLS block with verification on cannot be built (CA file missing, bundle without a CA certificate, unloadable key pair): refused or admit nobody; the intra-proxy client with an unbuildable TLS block: no client connection on any of three attempts; non-trivial = must be refused")
 	res.Sample(map[string]any{"variant": "server=verify,client=skip", "server": "inbound", "peer": "none"})
 }
 
